@@ -8,7 +8,7 @@ SPEC = {
     "driver": "Driver/E2EBuild.lean",
     "needs_plz": True,
     "level": "proof",
-    "level_text": "C02_main: for every history of cached builds, removals from plz-out (rm -rf included) and cache evictions, the final build "
+    "level_text": "C02_main_if_injective: for every history of cached builds, removals from plz-out (rm -rf included) and cache evictions, the final build "
                   "gives each requested target its clean-build output; C02_no_wrong_restore: a hit under the cache invariant restores exactly "
                   "exec(definition, inputs). CONDITIONAL on injective rule/path pre-images (C08/C09) and on the cache key (CollapseHash of the "
                   "digests) being injective on the stamp; C02_collapse_sensitive proves every config/source byte reaches the key in the regenerated "
